@@ -54,7 +54,9 @@ func vtLoopback(r *vtRec, acceptor, initiator func(net.Conn) vtEnd) (acc, ini vt
 }
 
 func vtDirectServer(p *vtPKI, c vtCase, r *vtRec) {
-	tc, err := GetServerTLSConfig(vtTLSConfigOf(p.files(c.Cfg)), log.NewNoopLogger())
+	f, afterStart := p.caseFiles(c)
+	defer afterStart()
+	tc, err := GetServerTLSConfig(vtTLSConfigOf(f), log.NewNoopLogger())
 	if err != nil {
 		r.Startup, r.StartupErr = "reject", err.Error()
 		return
@@ -64,15 +66,21 @@ func vtDirectServer(p *vtPKI, c vtCase, r *vtRec) {
 		return
 	}
 	r.Startup = "ready"
+	afterStart()
+	acceptor := func(conn net.Conn) vtEnd { return vtTLSEnd(tls.Server(conn, tc), false) }
+	if c.Cred.Class == vtPlaintext { // the closest thing without TLS: the byte exchange on the bare TCP connection
+		r.Proxy, r.Peer = vtLoopback(r, acceptor, func(conn net.Conn) vtEnd { return vtPlainEnd(conn, true) })
+		return
+	}
 	pc, sent := p.peerClient(c.Cred)
-	r.Proxy, r.Peer = vtLoopback(r,
-		func(conn net.Conn) vtEnd { return vtTLSEnd(tls.Server(conn, tc), false) },
-		func(conn net.Conn) vtEnd { return vtTLSEnd(tls.Client(conn, pc), true) })
+	r.Proxy, r.Peer = vtLoopback(r, acceptor, func(conn net.Conn) vtEnd { return vtTLSEnd(tls.Client(conn, pc), true) })
 	r.Peer.Sent = sent.Load()
 }
 
 func vtDirectClient(p *vtPKI, c vtCase, r *vtRec) {
-	tc, err := GetClientTLSConfig(vtTLSConfigOf(p.files(c.Cfg)))
+	f, afterStart := p.caseFiles(c)
+	defer afterStart()
+	tc, err := GetClientTLSConfig(vtTLSConfigOf(f))
 	if err != nil {
 		r.Startup, r.StartupErr = "reject", err.Error()
 		return
@@ -82,8 +90,13 @@ func vtDirectClient(p *vtPKI, c vtCase, r *vtRec) {
 		return
 	}
 	r.Startup = "ready"
+	afterStart()
+	initiator := func(conn net.Conn) vtEnd { return vtTLSEnd(tls.Client(conn, tc), true) }
+	if c.Cred.Class == vtPlaintext {
+		r.Peer, r.Proxy = vtLoopback(r, func(conn net.Conn) vtEnd { return vtPlainEnd(conn, false) }, initiator)
+		return
+	}
 	r.Peer, r.Proxy = vtLoopback(r,
-		func(conn net.Conn) vtEnd { return vtTLSEnd(tls.Server(conn, p.peerServer(c.Cred)), false) },
-		func(conn net.Conn) vtEnd { return vtTLSEnd(tls.Client(conn, tc), true) })
+		func(conn net.Conn) vtEnd { return vtTLSEnd(tls.Server(conn, p.peerServer(c.Cred)), false) }, initiator)
 	r.Peer.Sent = c.Cred.Class != "none"
 }
